@@ -280,6 +280,20 @@ func shTamper(r *kc.Rng, q *big.Int, in *shInst) (kinds []string, outs []*shInst
 	c = cl()
 	c.ybar[i] = z.add(c.ybar[i], big.NewInt(1))
 	add("plaintext-shift", c)
+	// changes that cancel when the two halves of the output (or two outputs) are added up
+	c = cl()
+	d := sgUniform(r, q)
+	c.xbar[i], c.ybar[i] = z.add(c.xbar[i], d), z.sub(c.ybar[i], d)
+	add("offset-x-plus-y-minus", c)
+	c = cl()
+	c.xbar[i], c.xbar[j] = z.add(c.xbar[i], d), z.sub(c.xbar[j], d)
+	add("offset-two-outputs-x", c)
+	c = cl()
+	c.ybar[i], c.ybar[j] = z.add(c.ybar[i], d), z.sub(c.ybar[j], d)
+	add("offset-two-outputs-y", c)
+	c = cl()
+	c.xbar, c.ybar = c.ybar, c.xbar
+	add("halves-exchanged", c)
 	return
 }
 
